@@ -270,6 +270,15 @@ def oracle(ctx, ss, np, rng):
             k = rng.choice([2.0, 0.5, 3.0])
             ym = np.atleast_1d(np.asarray((p * k).values, dtype=float))[0]
             if not close(ym, y * k): ctx.violation(f'{kind}*{k}: values {ym} != {y}*{k}', key)
+            # conversion without an explicit dt, then arithmetic: the converted quantity behaves like a plain number of that unit
+            try:
+                q1 = p.to(u2)
+                base = float(np.atleast_1d(np.asarray(q1.values, dtype=float))[0])
+                def val(x): return float(np.atleast_1d(np.asarray(getattr(x, 'values', x), dtype=float))[0])
+                for what, got, want in ((f'({kind}.to({u2!r}) * {k})', val(q1 * k), base * k), (f'(-{kind}.to({u2!r}))', val(-q1), -base), (f'({kind}.to({u2!r}) / {k})', val(q1 / k), base / k)):
+                    if not close(got, want): ctx.violation(f'{what} = {got}; the converted value is {base}, so the result should be {want}', key | dict(via=u2, probe='to-then-arithmetic')); break
+            except Exception as E:
+                ctx.violation(f'{kind}: to({u2!r}) followed by arithmetic raised {type(E).__name__}: {E}', key)
     # rejections
     rej = [(ss.time_prob, -0.1), (ss.time_prob, 1.5), (ss.beta, 2.0), (ss.rate_prob, -1.0), (ss.time_prob, np.array([0.2, 1.2])), (ss.rate_prob, np.array([0.5, -0.5]))]
     # arrays whose valid entries all sit on the boundary (0 or 1) with one entry out of range, for every (unit, dt) side
